@@ -114,6 +114,22 @@ def run(rep):
     rep.ob("C20.f", "doDOMNodeXInclude", not bad, "%d recursive processing sites, each after the content was placed" % len(res) if not bad else
            "nested XInclude processing at line %s runs before the content is spliced into the document" % bad, c4.file)
 
+    rep.rule("C20.g", "every imported node is processed: in doDOMNodeXInclude each node appended to the replacement fragment "
+             "(frag->appendChild) is, on every normal path onwards, queued for nested-inclusion processing "
+             "(delayedProcessing.addElement) — an imported node that is left out keeps its own xi:include elements unexpanded")
+    isapp = lambda el: any(x[0] == "c" and x[1].split("::")[-1] == "appendChild" and x[2] and x[2][0] == "l" and x[2][1] == "frag"
+                           for x in guard.el_top_calls(el))
+    isq = lambda el: any(x[0] == "c" and x[1].split("::")[-1] == "addElement" and x[2] and x[2][0] == "l" and x[2][1] == "delayedProcessing"
+                         for x in guard.el_top_calls(el))
+    res = guard.must_follow(c4, isapp, isq)
+    if len(res) < 2:
+        raise AnalysisBroken("doDOMNodeXInclude: fewer than two frag->appendChild sites (fallback content, included content)")
+    for b, i, el, ok in res:
+        rep.ob("C20.g", "doDOMNodeXInclude@appendChild:%d" % (1 + [r[2].get("l") for r in res].index(el.get("l"))), ok,
+               "queued for nested processing on every path" if ok else
+               "the node appended to the fragment at line %s is not queued for nested-inclusion processing on some path: xi:include "
+               "elements inside (or at the top of) that imported node stay unexpanded" % el.get("l"), "%s:%s" % (c4.file, el.get("l")))
+
     rep.rule("C20.d", "feature gate: in AbstractDOMParser every use of XIncludeUtils / DOMDocument XInclude processing is "
              "unreachable (CFG) when fDoXInclude is false")
     k = 0
